@@ -91,10 +91,24 @@ def mk_epochs(ts, ea):
                      start=mk_arg(ts, ea.get("start")), duration=mk_arg(ts, ea.get("duration")), time_unit=ea.get("unit"))
 
 
+INT_TYPES = {"int": int, "int8": np.int8, "int16": np.int16, "int32": np.int32, "int64": np.int64, "intp": np.intp,
+             "uint8": np.uint8, "uint16": np.uint16, "uint32": np.uint32, "uint64": np.uint64}
+
+
+def gen_int_type(rng, k):
+    """a Python / numpy integer type able to hold the key k (negative keys need a signed type)"""
+    ok = [t for t in INT_TYPES if (k >= 0 or not t.startswith("u")) and (t == "int" or np.iinfo(INT_TYPES[t]).min <= k <= np.iinfo(INT_TYPES[t]).max)]
+    return rng.choice(ok + ["int", "int"])
+
+
+def mk_int(k, ty):
+    return INT_TYPES[ty or "int"](k)
+
+
 def mk_key(key):
     k = key["kind"]
     if k == "int":
-        return np.int64(key["k"]) if key.get("np") else int(key["k"])
+        return mk_int(key["k"], key.get("ty"))
     if k == "slice":
         return slice(key["lo"], key["hi"])
     if k == "list":
@@ -367,8 +381,13 @@ def run_action(a):
     import nitime.timeseries as ts
     try:
         k = a["act"]
-        if k in ("tindex", "tat", "tslice", "tduring"):
+        if k in ("tindex", "tat", "tslice", "tduring", "tget"):
             s = derive_time(ts, mk_time(ts, a["self"]), a.get("dv"))
+            if k == "tget":
+                r = s[mk_int(a["k"], a.get("ty"))]
+                if not isinstance(r, ts.TimeInterface):
+                    return {"t": "other", "what": "integer selection returned a bare %s (no time unit)" % type(r).__name__}
+                return obs_times(r)
             if k == "tindex":
                 kw = {}
                 if a.get("tol") is not None:
@@ -387,13 +406,18 @@ def run_action(a):
             if k == "tslice":
                 return obs_slice(s.slice_during(e))
             return obs_times(s[e] if a.get("via") == "getitem" else s.during(e))
-        if k in ("uwf", "uindex", "uat", "uslice", "uduring"):
+        if k in ("uwf", "uindex", "uat", "uslice", "uduring", "uget"):
             u = derive_axis(ts, mk_axis(ts, a["build"]), a.get("dv"))
             stt = axis_state(u)
             if stt != a["axis"]:
                 return {"t": "other", "what": "axis state changed since generation"}
             if k == "uwf":
                 return {"t": "bool", "b": axis_wf(stt)}
+            if k == "uget":
+                r = u[mk_int(a["k"], a.get("ty"))]
+                if not isinstance(r, ts.TimeInterface):
+                    return {"t": "other", "what": "integer selection returned a bare %s (no time unit)" % type(r).__name__}
+                return obs_times(r)
             if k == "uindex":
                 r = u.index_at(mk_arg(ts, a["q"]), boolean=a["boolean"])
                 if a["boolean"]:
@@ -424,7 +448,7 @@ def run_action(a):
                     return {"t": "cols", "l": columns(r)}
                 return {"t": "other", "what": "selected data of shape %s" % (r.shape,)}
             if k == "sint":
-                r = np.asarray(s[a["k"]])
+                r = np.asarray(s[mk_int(a["k"], a.get("ty"))])
                 if r.shape != tuple(a["series"]["shape"][:-1]):
                     return {"t": "other", "what": "selected data of shape %s" % (r.shape,)}
                 return {"t": "col", "c": [int(x) for x in r.ravel()]}
@@ -447,7 +471,7 @@ def run_action(a):
             ev = mk_events(ts, a["events"])
             key = a["key"]
             if key["kind"] == "int":
-                kk = {"int": int, "int64": np.int64, "int32": np.int32}[key.get("ty", "int")](key["k"])
+                kk = mk_int(key["k"], key.get("ty"))
             elif key["kind"] == "float":
                 kk = float.fromhex(key["x"])
             else:
@@ -512,6 +536,10 @@ def action_coq(a):
         return "(ATIndex %s %s %s %s)" % (tarr_coq(a["self"]), arg_coq(a["q"]), oarg_coq(a.get("tol")), MODE.get(a["mode"], "BadMode"))
     if k == "tat":
         return "(ATAt %s %s %s)" % (tarr_coq(a["self"]), arg_coq(a["q"]), oarg_coq(a.get("tol")))
+    if k == "tget":
+        return "(ATGet %s %s)" % (tarr_coq(a["self"]), zlit(a["k"]))
+    if k == "uget":
+        return "(AUGet %s %s)" % (axis_coq(a["axis"]), zlit(a["k"]))
     if k == "tslice":
         return "(ATSlice %s %s)" % (tarr_coq(a["self"]), eargs_coq(a["e"]))
     if k == "tduring":
@@ -646,6 +674,17 @@ def oracle(a, o):
     k = a["act"]
     if o["t"] == "other":
         return fail("C03/%s/result-kind" % k, "unexpected kind of result: %s" % o["what"], o, "see statement")
+    if k in ("tget", "uget"):
+        p = a["self"]["p"] if k == "tget" else a["axis"]["samples"]
+        u = a["self"]["u"] if k == "tget" else a["axis"]["u"]
+        n = len(p)
+        key = "C03/%s.__getitem__/int/%s" % ("TimeArray" if k == "tget" else "UniformTime", a.get("ty") or "int")
+        if not -n <= a["k"] < n:
+            return None if o["t"] == "err" else fail(key, "position outside accepted", o, "IndexError")
+        want = {"p": [p[a["k"] % n]], "u": u, "sc": True}
+        if o["t"] != "times" or (o["p"], o["u"], o["sc"]) != (want["p"], want["u"], want["sc"]):
+            return fail(key, "integer selection is not the time stored at that position (0-d, in the unit of the object)", o, want)
+        return None
     if k in ("tindex", "tat"):
         s = a["self"]
         p = s["p"]
@@ -1129,7 +1168,7 @@ def gen_action(rng, ts, nbig=None):
     """nbig: a sample count beyond the usual 1..40 (1025, 2049, 4097, ...) for the object indexed"""
     a = gen_action0(rng, ts, nbig)
     k = a["act"]
-    if k in ("tindex", "tat", "tslice", "tduring"):
+    if k in ("tindex", "tat", "tslice", "tduring", "tget"):
         dv = rng.choice(TIME_DV)
         if dv:
             a["dv"] = dv
@@ -1163,6 +1202,9 @@ def gen_action0(rng, ts, nbig=None):
                 if a["tol"] is None and q["kind"] == "float" and q["sc"] and rng.random() < 0.5:
                     a["via"] = "getitem"
             return a
+        if rng.random() < 0.15:
+            kk = rng.randint(-len(s["p"]) - 1, len(s["p"]))
+            return {"act": "tget", "self": s, "k": kk, "ty": gen_int_type(rng, kk)}
         e = gen_bad_eargs(rng, u) if rng.random() < 0.05 else gen_eargs(rng, u, s["p"], g, array=rng.random() < 0.08)
         return {"act": rng.choice(["tslice", "tduring"]), "self": s, "e": e, "via": via}
     if r < 0.6:
@@ -1182,6 +1224,9 @@ def gen_action0(rng, ts, nbig=None):
         r2 = rng.random()
         if r2 < 0.05:
             return {"act": "uwf", "build": b, "axis": ax, "dv": dv}
+        if r2 < 0.11:
+            kk = rng.randint(-len(p) - 1, len(p))
+            return {"act": "uget", "build": b, "axis": ax, "dv": dv, "k": kk, "ty": gen_int_type(rng, kk)}
         span = p + [ax["t0"] + ax["dur"] - 1, ax["t0"] + ax["dur"]]
         uni = (ax["t0"], ax["dt"], ax["dur"])
         if r2 < 0.6:
@@ -1212,7 +1257,8 @@ def gen_action0(rng, ts, nbig=None):
                         scalar=(m == 1 and rng.random() < 0.9))
             return {"act": "sat", "series": s, "q": q, "via": via if q["kind"] == "time" else "method"}
         if r2 < 0.4:
-            return {"act": "sint", "series": s, "k": rng.randint(-n - 1, n)}
+            kk = rng.randint(-n - 1, n)
+            return {"act": "sint", "series": s, "k": kk, "ty": gen_int_type(rng, kk)}
         inside = rng.random() < 0.8
         e = gen_eargs(rng, s["u"], span, s["dt"], array=rng.random() < 0.4, uni=(p[0], s["dt"], n * s["dt"]),
                       lo=p[0] if inside else None, hi=p[0] + n * s["dt"] if inside else None)
@@ -1230,7 +1276,8 @@ def gen_action0(rng, ts, nbig=None):
         n = len(p)
         r2 = rng.random()
         if r2 < 0.4:
-            key = {"kind": "int", "k": rng.randint(-n - 1, n), "ty": rng.choice(["int", "int", "int64", "int32"])}
+            kk = rng.randint(-n - 1, n)
+            key = {"kind": "int", "k": kk, "ty": gen_int_type(rng, kk)}
         elif r2 < 0.65:
             t = gen_instant(rng, p, g)
             key = {"kind": "float", "x": float(t / FACT[ev["time"]["u"]]).hex()}
@@ -1261,7 +1308,8 @@ def gen_ekey(rng, ea):
     n = len(sp["start"]) if isinstance(sp, dict) else 2
     r = rng.random()
     if r < 0.4:
-        return {"kind": "int", "k": rng.randint(-n, n - 1) if rng.random() < 0.85 else rng.choice([n, -n - 1]), "np": rng.random() < 0.3}
+        kk = rng.randint(-n, n - 1) if rng.random() < 0.85 else rng.choice([n, -n - 1])
+        return {"kind": "int", "k": kk, "ty": gen_int_type(rng, kk)}
     if r < 0.65:
         return {"kind": "slice", "lo": rng.choice([None, 0, 1, -1, -n, n]), "hi": rng.choice([None, None, 1, n, -1, n + 2])}
     if r < 0.85:
@@ -1509,6 +1557,9 @@ def klass(a, o):
         tag += "/" + ("wf" if axis_wf(a["axis"]) else "illformed")
     if k == "eget":
         tag += "/" + a["key"]["kind"]
+    ty = a.get("ty") or (a.get("key") or {}).get("ty")
+    if ty:
+        tag += "/key-" + ty
     if "q" in a:
         tag += "/q-" + a["q"]["kind"]
     if o["t"] == "err":
